@@ -12,8 +12,10 @@ CHECKS = {
  "C03": ("exploration", "seeded search over bystander workloads x disturber kinds (handler error, unknown/malformed method, refusal after shutdown, cancel, expiry, never-reading caller/handler, invalid strings) x relative timings (free-running or gated) x schedules; the disturbance is left to settle to final quiescence, then bystanders must finish as planned, the tunnel must be up, a fresh RPC must succeed", "6 C03"),
  "C04": ("fault_enumeration", "for seeded baselines every termination cause is injected at every frame boundary (thorough) or a stratified sample (quick), each run driven to final quiescence with all timers fired; oracles: nothing still blocked, Done/Err, serving calls returned, in-flight calls non-OK, late RPCs fail at once", "6 C04"),
  "C07": ("fault_enumeration", "for seeded baselines the RPC of interest is cancelled at every frame boundary (thorough) or a stratified sample (quick), plus a variant that holds back all delivery towards the caller, plus virtual-time deadlines; oracles: exactly one legal outcome, handler released, bystanders and a fresh RPC unaffected", "6 C07"),
+ "C08": ("exploration", "seeded search: many goroutines released together start RPCs on one channel (some failing at start) under lock-granularity schedules, with the wire monitor checking that ids strictly increase and begin with new_stream and the history checking one invocation of the named handler per completed call; plus a raw tunnel client (both network roles) that reuses, reverses, negates, skips ids and sends frames for finished ids, followed by a probe stream", "6 C08"),
  "C10": ("fault_enumeration", "for seeded baselines graceful shutdown (InitiateShutdown / GracefulStop in its own goroutine) is initiated at every frame boundary (thorough) or a stratified sample (quick) of a workload of in-flight RPCs, further RPCs are attempted afterwards, the run is driven to final quiescence and Stop is called; oracles: RPCs started after shutdown took effect are refused with Unavailable and never reach a handler, in-flight RPCs complete as planned, the tunnel stays up for them, GracefulStop/Stop return when they should", "6 C10"),
  "C13": ("exploration", "every frame of every explored run (message-flow, teardown, metadata families) is fed, at emission and at delivery, to a protocol automaton written from tunnel.proto (appendix A)", "6 C13, appendix A"),
+ "C16": ("exploration", "seeded search over shape cases: raw client vs real server and raw server vs real client with 0-4 messages on the non-streaming side, arbitrary chunking, messages after the half-close/close, both network roles, negotiated and legacy; and applications that send twice on a non-streaming side (wire monitor: one envelope)", "6 C16"),
  "C14": ("exploration", "every run ends with a drain to final quiescence and a full shutdown; stream-table sizes are probed through the verif accessors and every goroutine the library started is accounted for by spawn site", "6 C14"),
 }
 
